@@ -54,6 +54,17 @@ def run(ctx):
         if s is None:
             continue
         r = rulemod.Rule(rn)
+        # the same Rule object is first used to validate nodes (one with a child the rule does not allow, one with a valid word
+        # reversed) and then asked for insertion indices: validation leaves nothing behind on the object
+        try:
+            for kids_ in ([FOREIGN] + (lang.min_word(s) or []), list(reversed(lang.min_word(s) or []))):
+                impl.reset()
+                n_ = Node(ri.elem_for(rn) or "zzUnmapped")
+                for kn in kids_:
+                    c_ = Node(kn); n_.children.append(c_); c_.parent = n_
+                r.validate_rule(n_, [])
+        except Exception:
+            pass
         flat = lang.names(s)
         mixed = rn in ri.mixed
         pname = ri.elem_for(rn) or "zzUnmapped"
